@@ -43,6 +43,18 @@ def gen(seed, tier="quick"):
     leafs.append(g.add_ann({"k": "union", "items": [arrs[0], "str"]}))
     leafs.append(g.add_ann({"k": "union", "items": ["int", "str"], "pep604": True}))
     leafs.append(g.add_ann({"k": "union", "items": [arrs[0], "str"], "pep604": True}))
+    # unions whose members OVERLAP (both array annotations accept a 1-d float array, each binding its own axis name): members are
+    # tried in order and the first match wins -- the others must not be evaluated for their side effects
+    ua = g.add_ann({"k": "arr", "dtype": "Float", "atype": "np", "dims": "a", "toks": [{"kind": "named", "name": "a"}]})
+    ub = g.add_ann({"k": "arr", "dtype": "Float", "atype": "np", "dims": "b", "toks": [{"kind": "named", "name": "b"}]})
+    leafs.append(g.add_ann({"k": "union", "items": [ua, ub]}))
+    # (same member order in both spellings: typing treats Union[A, B] and B | A as EQUAL, and the lru_cache on PyTree.__getitem__
+    # then hands out whichever of two equal unions was subscripted first in the process -- with overlapping members the try-order,
+    # which typing leaves unspecified, decides which axis gets bound; the model assumes written order)
+    leafs.append(g.add_ann({"k": "union", "items": [ua, ub], "pep604": True}))
+    # typing.Any nested inside a union / a fixed-length tuple
+    leafs.append(g.add_ann({"k": "union", "items": ["int", "any"]}))
+    leafs.append(g.add_ann({"k": "tuple", "items": ["any", "int"]}))
     leafs.append(g.add_ann({"k": "listof", "item": "int"}))
     leafs.append(g.add_ann({"k": "dictof", "item": "int"}))
     leafs.append(g.add_ann({"k": "listof", "item": arrs[0]}))
